@@ -30,7 +30,7 @@ SPEC = dict(
         ref="DESIGN.md §6 C16"),
     imports="From Coq Require Import Uint63.\nFrom Ship Require Import Base Pack Txt.\nOpen Scope N_scope.",
     case_type="c16_case", check_fn="check_c16",
-    drivers=[dict(bin="mdnsdrv", args=["-prop", "C16"], n_quick=3000, n_thorough=60000)],
+    drivers=[dict(bin="mdnsdrv", args=["-prop", "C16"], n_quick=4000, n_thorough=60000)],
     codes={10: "service_invisible_id_or_ski_contains_equals", 11: "service_invisible",
            12: "mandatory_field_differs_value_contains_equals", 13: "mandatory_field_differs",
            14: "descriptive_field_dropped_value_contains_equals", 15: "shortened_field_splits_rune",
